@@ -301,7 +301,8 @@ def run(ck):
     # =============================================================== printed sizes
     def printed_section():
         import re
-        rx = re.compile(r"^(\d+)(?:\.(\d+))? (k|M|G|T|P|E|)(i?)B$")
+        from allmydata.web import common as webcommon
+        rx = re.compile(r"^(\d+)(?:\.(\d+))? ?(k|M|G|T|P|E|)(i?)B$")
 
         def read_printed(text):
             """(value denoted by the printed string, half a unit of its last printed digit), both exact Fractions."""
@@ -320,22 +321,43 @@ def run(ck):
             if not ok:
                 ck.violation("abbreviate_space-raises", "abbreviate_space raised %s" % type(text).__name__, {"size": s, "SI": si})
                 return
+            judge_text(s, si, text, "abbreviate_space")
+            # the combined form, judged piecewise: "(<SI print>, <IEC print>)"
+            okb, both = attempt(ab.abbreviate_space_both, s)
+            if okb and both != "(%s, %s)" % (ab.abbreviate_space(s, True), ab.abbreviate_space(s, False)):
+                ck.observe("abbreviate_space_both-differs-from-parts")
+                mb = re.match(r"^\((.*), (.*)\)$", both)
+                if mb:
+                    judge_text(s, True, mb.group(1), "abbreviate_space_both[0]")
+                    judge_text(s, False, mb.group(2), "abbreviate_space_both[1]")
+
+        def one_web(s):
+            """web.common.abbreviate_size: the printer of the status / storage web pages ("21.8kB", "4.37MB")."""
+            ck.mon("printed-size-oracle")
+            ck.hit("printed-size-web")
+            ok, text = attempt(webcommon.abbreviate_size, s)
+            if not ok:
+                ck.violation("abbreviate_size-raises", "web.common.abbreviate_size raised %s" % type(text).__name__, {"size": s})
+                return
+            judge_text(s, True, text, "web.common.abbreviate_size")
+
+        def judge_text(s, si, text, printer):
             val, half_digit = read_printed(text)
             if val is None:
                 ck.observe("printed-size-unrecognised-format")
                 return
             okp, got = attempt(ab.parse_abbreviated_size, text)
-            wit = {"size": s, "SI": si, "printed": text}
+            wit = {"size": s, "SI": si, "printed": text, "printer": printer}
             if val == s:
                 ck.hit("printed-size-exact")
                 if not okp:
                     mech = "printed-size-with-decimals-unparseable" if "." in text else "printed-size-with-space-unparseable"
-                    ck.violation(mech, "abbreviate_space(%d) prints %r, which denotes exactly %d bytes, but "
+                    ck.violation(mech, "%s(%d) prints %r, which denotes exactly %d bytes, but "
                                  "parse_abbreviated_size rejects it (%s); contradicts %s"
-                                 % (s, text, s, type(got).__name__, STMT_PRINTED), wit)
+                                 % (printer, s, text, s, type(got).__name__, STMT_PRINTED), wit)
                 elif got != s:
-                    ck.violation("printed-size-parses-to-other-value", "abbreviate_space(%d) prints %r which parses back to "
-                                 "%r; contradicts %s" % (s, text, got, STMT_PRINTED), dict(wit, got=got))
+                    ck.violation("printed-size-parses-to-other-value", "%s(%d) prints %r which parses back to "
+                                 "%r; contradicts %s" % (printer, s, text, got, STMT_PRINTED), dict(wit, got=got))
             else:
                 # a rounded print cannot come back as the same number; the weakest reading of "parse back to the same
                 # value" is: back to within the precision that was printed (half a unit of the last printed digit,
@@ -345,22 +367,52 @@ def run(ck):
                     if val.denominator != 1:
                         ck.skip("printed-size-not-a-whole-number-of-bytes-refused")    # e.g. "1.43 MiB": left open
                     else:
-                        ck.violation("printed-size-with-decimals-unparseable", "abbreviate_space(%d) prints %r, a whole "
+                        ck.violation("printed-size-with-decimals-unparseable", "%s(%d) prints %r, a whole "
                                      "number of bytes, but parse_abbreviated_size rejects it (%s); contradicts %s"
-                                     % (s, text, type(got).__name__, STMT_PRINTED), wit)
+                                     % (printer, s, text, type(got).__name__, STMT_PRINTED), wit)
                 else:
                     slack = half_digit + Fraction(abs(s), 10 ** 12) + 1
                     if abs(got - s) > slack:
                         ck.violation("printed-size-parses-to-other-value",
-                                     "abbreviate_space(%d) prints %r, which parses back to %d: off by %d bytes, more than "
+                                     "%s(%d) prints %r, which parses back to %d: off by %d bytes, more than "
                                      "half a unit of the last printed digit (%s bytes); contradicts %s"
-                                     % (s, text, got, abs(got - s), int(half_digit), STMT_PRINTED), dict(wit, got=got))
+                                     % (printer, s, text, got, abs(got - s), int(half_digit), STMT_PRINTED), dict(wit, got=got))
                     else:
                         ck.skip("printed-size-rounded-parses-back-within-printed-precision")
-            # the combined form is the two single forms
-            okb, both = attempt(ab.abbreviate_space_both, s)
-            if okb and both != "(%s, %s)" % (ab.abbreviate_space(s, True), ab.abbreviate_space(s, False)):
-                ck.observe("abbreviate_space_both-differs-from-parts")
+
+        # every printer over the whole magnitude range with tier-boundary bias
+        def boundary_sizes():
+            for k in range(0, 7):
+                for base in (10 ** (3 * k), 2 ** (10 * k)):
+                    for sz in (base - 1, base, base + 1, base + base // 2, 2 * base - 1, 999 * base, 1000 * base - 1,
+                               1023 * base, 15 * base // 10, 25 * base // 10):
+                        if 0 <= sz <= 2 * 10 ** 18:
+                            yield sz
+        seen = set()
+        for idx, s0 in enumerate(boundary_sizes()):
+            if s0 in seen:
+                continue
+            seen.add(s0)
+            one(s0, True); one(s0, False); one_web(s0)
+            ck.hit("printed-size-tier-boundary")
+            ck.case("printed-size-boundary", key=s0, nontrivial=True)
+        n_web = 1500 if quick else 15000
+        for i in range(n_web):
+            if not mine():
+                continue
+            if ck.out_of_time():
+                return
+            mag = rng.randint(0, 18)
+            s0 = rng.choice([rng.randint(0, 10 ** mag), rng.randint(1, 9999) * 10 ** max(0, mag - 3),
+                             10 ** mag - rng.randint(0, 5), 10 ** mag + rng.randint(0, 5)])
+            s0 = max(0, s0)
+            one_web(s0)
+            ck.case("printed-size-web", key=s0, nontrivial=True,
+                    sample={"size": s0, "printed": webcommon.abbreviate_size(s0)} if i in (5, 6) else None)
+        # rate and time printers (abbreviate_rate "4.37MBps", web abbreviate_time "1.23s", util abbreviate_time
+        # "2 months ago"): the tree has no parser for them and the statement speaks of sizes -> not judged
+        attempt(webcommon.abbreviate_rate, 1234567)
+        ck.skip("printed-rate-or-time-has-no-parser")
 
         for s0 in (1999999, 999999, 7998, 2 * 1024 * 1024 - 1, 1024 ** 3 - 1):     # carry into the next whole unit
             for si0 in (True, False):
@@ -754,7 +806,7 @@ def run(ck):
                        "duration-oracle", "duration-linearity-oracle", "duration-malformed-oracle",
                        "date-oracle", "date-malformed-oracle", "iso-roundtrip-oracle")
     ck.require_reach("size-documented-spelling", "size-through-client", "size-malformed-rejected", "printed-size-exact",
-                     "printed-size-rounded", "printed-size-just-below-whole-unit",
+                     "printed-size-rounded", "printed-size-just-below-whole-unit", "printed-size-web", "printed-size-tier-boundary",
                      "duration-accepted:day", "duration-accepted:month", "duration-accepted:year",
                      "duration-through-client", "duration-malformed-rejected", "date-valid", "date-through-client",
                      "date-malformed-rejected", "iso-roundtrip")
@@ -781,3 +833,7 @@ def run(ck):
 #     (printed-size-parses-to-other-value: a rounded print must parse back to within half a unit of its last printed
 #     digit; binary prints that are not a whole number of bytes are refused by the parser on the unchanged tree and
 #     stay open: dont_care printed-size-not-a-whole-number-of-bytes-refused)
+# 11. seeded/C48-6 and twins in selftest/breaks_c48.py (web.common.abbreviate_size: a tier with the wrong divisor,
+#     kB tier dividing by 1024, MB tier labelled kB)                                               -> caught
+#     (printed-size-parses-to-other-value with printer=web.common.abbreviate_size; every size printer of the tree is now
+#     printed-then-parsed over 0..2*10^18 with tier-boundary bias; rate/time printers have no parser and are skipped)
